@@ -41,6 +41,7 @@ pub mod c15;
 pub mod c16;
 pub mod c17;
 pub mod c18;
+pub mod c19;
 pub mod c20;
 
 pub fn run(property: &str, tier: Tier, seed: u64) -> Option<MonOut> {
@@ -62,6 +63,7 @@ pub fn run(property: &str, tier: Tier, seed: u64) -> Option<MonOut> {
         "C16" => Some(c16::run(tier, seed)),
         "C17" => Some(c17::run(tier, seed)),
         "C18" => Some(c18::run(tier, seed)),
+        "C19" => Some(c19::run(tier, seed)),
         "C20" => Some(c20::run(tier, seed)),
         _ => None,
     }
